@@ -177,7 +177,9 @@ def map(
             )
 
     position = layers[0]["position"]
-    cell_size = layers[0]["dx"]
+    # All lengths below are combined as plain numbers: the cell sizes must be in the
+    # unit of the positions
+    cell_size = layers[0]["dx"].to(position.unit)
     ndim = position.nvec
 
     thick = dz is not None
